@@ -158,12 +158,12 @@ def run(ctx):
 
     r = ctx.model(SPEC, "MC_Resolver", "MC_Resolver_%s.cfg" % ctx.tier, name="trees-x-lines-exhaustive", timeout=2400)
     recs = T.emitted(r)
-    if len(recs) < 50000:
+    if len(recs) < 30000:
         raise T.MachineryError("resolver model emitted %d" % len(recs))
     replay(recs, "exhaustive")
     ctx.sample({"line": [txt(t) for t in recs[len(recs) // 2]["line"]], "outcome": recs[len(recs) // 2]["outcome"]})
     n1 = len(recs)
-    r = ctx.model(SPEC, "MC_Resolver", "MC_Resolver_sim.cfg", name="full-family-simulated", simulate="num=%d" % (1500 if quick else 40000),
+    r = ctx.model(SPEC, "MC_Resolver", "MC_Resolver_sim.cfg", name="full-family-simulated", simulate="num=%d" % (800 if quick else 40000),
                   depth=12, workers=1, seed=ctx.seed % 100000)
     recs = list({json.dumps(m, sort_keys=True): m for m in T.emitted(r)}.values())
     replay(recs, "simulate")
